@@ -4,6 +4,7 @@
 From Verif Require Import Common.Base.
 From Verif Require Common.Lx Cursor.Model Cursor.Proofs Xml.Model Xml.Step Xml.Proofs.
 From Verif Require Gen.Tables Html.Model Html.ListLemmas Html.Safety Html.Step Html.Proofs.
+From Verif Require JsLex.Model JsLex.Lemmas JsLex.Next JsLex.Proofs JsLex.Relex JsLex.RelexNext.
 
 Module Cursor.
   Import Verif.Cursor.Model Verif.Cursor.Proofs.
@@ -67,3 +68,38 @@ Module Html.
   Proof. exact html_endtag_case_refuted_proof. Qed.
   Print Assumptions html_endtag_case_refuted.
 End Html.
+
+Module JsLex.
+  Import Verif.Common.Lx Verif.Gen.Tables Verif.JsLex.Model Verif.JsLex.Lemmas Verif.JsLex.Next Verif.JsLex.Proofs Verif.JsLex.Relex Verif.JsLex.RelexNext.
+  (* ALL byte strings, any number of calls: the token texts concatenate to data[0:start]; every returned slice is
+     non-empty; as long as no call returned the nil slice the tokens tile exactly the bytes consumed *)
+  Theorem jslex_tokens_tile :
+    forall (ids idc zs : Z -> bool) d n,
+      exists ts s', next_n ids idc zs n (js_init d) = Ok (ts, s') /\
+        0 <= lstart (jcur s') <= lpos (jcur s') /\ lpos (jcur s') <= len d /\
+        concat (map tok_bytes ts) = firstz (lstart (jcur s')) d /\
+        Forall (fun t => match snd t with Some b => b <> [] | None => fst t = ErrorToken end) ts /\
+        (Forall (fun t => snd t <> None) ts ->
+           lstart (jcur s') = lpos (jcur s') /\ concat (map tok_bytes ts) = firstz (lpos (jcur s')) d).
+  Proof. exact jslex_tiling_proof. Qed.
+  Print Assumptions jslex_tokens_tile.
+  (* lexing the text of any single token on its own yields that same token again (all kinds except template
+     continuations; on valid UTF-8 the side condition no_trunc holds: relex_valid_utf8 in Props/C06.v) *)
+  Theorem jslex_relex :
+    forall (ids idc zs : Z -> bool) s ty b s',
+      js_wf s -> lstart (jcur s) = lpos (jcur s) ->
+      next ids idc zs s = Ok ((ty, Some b), s') ->
+      ty <> ErrorToken -> ty <> TemplateMiddleToken -> ty <> TemplateEndToken -> no_trunc b = true ->
+      exists s2 s3, next ids idc zs (js_init b) = Ok ((ty, Some b), s2) /\
+        next ids idc zs s2 = Ok ((ErrorToken, None), s3) /\ js_err s3 = 1.
+  Proof. exact jslex_relex_proof. Qed.
+  Print Assumptions jslex_relex.
+  (* REFUTED for template continuations (known findings c02-js-relex:TemplateMiddle / TemplateEnd) *)
+  Theorem jslex_relex_template_refuted :
+    forall (ids idc zs : Z -> bool) ty, ty = TemplateMiddleToken \/ ty = TemplateEndToken ->
+      exists d t0 s1 t s2,
+        next ids idc zs (js_init d) = Ok (t0, s1) /\ next ids idc zs s1 = Ok (t, s2) /\
+        fst t = ty /\ ~ relex_same ids idc zs t.
+  Proof. exact jslex_relex_template_refuted_proof. Qed.
+  Print Assumptions jslex_relex_template_refuted.
+End JsLex.
